@@ -16,6 +16,11 @@ def run(tier, seed):
     fn = ("two", "one", "id")[seed % 3]
     df = seed % 2 == 0
     FW = lambda f, D: bc.consts("filt", WM | {"wmu"}, D, wms=WMS, durs=(0,), filtfn=f)
+    # directed family: L units buffered unread on a socket, read high watermark set to L-1 / L / L+1, then the peer
+    # writes more: no EOF while the peer is open, suspended at == high, reading resumes after a drain
+    HM = lambda d: dict(name="C18_sock_highmark_" + ("def" if d else "imm"), scripts=bc.sock_highmark_family(), units=(1, 512),
+                        consts=bc.consts("sock", {"write", "enable", "loop", "script", "wmr"}, 9, sizes=(1, 2, 3, 4), durs=(0,),
+                                         wms=[(lo, hi) for lo in (0, 1) for hi in (0, 1, 2, 3)], drains=(0, 1, 99), defer=d))
     quick_gen = [
         # exhaustive: also the bounded model check of the quick tier (invariants on every state of every history)
         dict(name="C18_pair_exh", consts=bc.consts("pair", {"write", "enable", "loop", "wmr", "script"}, 3, sizes=(1, 3),
@@ -27,6 +32,7 @@ def run(tier, seed):
         dict(name="C18_sock_" + ("def" if df else "imm"),
              consts=bc.consts("sock", WM, 10, wms=WMS, durs=(0,), extras=("none", "wm0"), xkinds=("r",), defer=df),
              simulate=20, units=(1, 512)),
+        HM(df),
     ]
     plan = {
         "mc": [] if q else [("C18_mc_pair", bc.consts("pair", WM, 5, sizes=(1, 3), drains=(0, 1), wms=((0, 0), (1, 2), (2, 1)),
@@ -44,6 +50,7 @@ def run(tier, seed):
             dict(name="C18_sock_imm", consts=bc.consts("sock", WM, 14, wms=WMS, durs=(0,), extras=("none", "wm0"),
                                                        xkinds=("r",)), simulate=300, units=(1, 512)),
             dict(name="C18_sock_def", consts=bc.consts("sock", WM, 14, wms=WMS, durs=(0,), defer=True), simulate=300, units=(1,)),
+            HM(False), HM(True),
         ],
         "monitor_by_kind": {k: bc.mon_c18(k) for k in ("pair", "filt", "sock")},
         "need": ["write", "wm", "cb:r", "cb:w"],
